@@ -248,7 +248,7 @@ void register_c04(std::vector<Profile>& v)
   p.assumptions = {"the value space is sampled by a seeded generator (ordinary generation); the simulator contributes control of when the copy is consumed relative to "
                    "the caller's mutation and of record placement / growth histories",
                    "null char const*: call-site formatting is undefined, the expected text is the empty string"};
-  p.quick_runs = 2500;
+  p.quick_runs = 16000;
   p.thorough_runs = 300000;
   v.push_back(p);
 }
@@ -269,7 +269,7 @@ void register_c11(std::vector<Profile>& v)
   p.stub_components = {"allocator wrapper (counts, then calls glibc)", "recording sinks", "clock (virtual)", "scheduling (simulator)"};
   p.assumptions = {"plain flavour only (ASan owns malloc)", "excluded by their documented design: direct-format types, filesystem paths, deferred types whose copy "
                    "constructor allocates, more than twelve C strings"};
-  p.quick_runs = 2500;
+  p.quick_runs = 16000;
   p.thorough_runs = 300000;
   v.push_back(p);
 }
